@@ -315,6 +315,20 @@ def run_c09(pid):
                      "pcm": pcm_spec(rnd.choice(["walk", "sine", "noise", "stereo", "wasted"]), 777 + i, fr),
                      "writes": [fr * upf_of(fe, ch, bps)], "tag": "big", **({"total": fr * upf_of(fe, ch, bps)} if i % 2 else {})})
     jobs += frame_volume_jobs(t, rnd, 7000)
+    # the smallest sample rates (0 = "not audio", 1, 7) under every seek table policy, declared and undeclared: a time-based interval
+    # of 0 samples is an interval like any other - whatever finalize writes, regeneration with the same interval gives the same points
+    for rate in (0, 1, 7, 15):
+        for st in ({"seconds": 1}, None, {"seconds": 255}, {"frames": 2}, "none"):
+            for declared in (False, True):
+                fe = rnd.choice(FES)
+                ch, bps, fr = rnd.choice([1, 2]), rnd.choice([8, 16]), 16 * rnd.randint(3, 9) + rnd.choice([0, 5])
+                j = {"fe": fe, "rate": rate, "bps": bps, "channels": ch, "opts": {"block_size": 16, "seektable": st, "padding": rnd.choice([-1, 64])},
+                     "pcm": pcm_spec("walk", 31 + rate, fr), "writes": [fr * upf_of(fe, ch, bps)], "tag": "tiny-rate"}
+                if st is None:
+                    del j["opts"]["seektable"]
+                if declared:
+                    j["total"] = fr * upf_of(fe, ch, bps)
+                jobs.append(j)
     # long streams (more than 65535 samples) with a declared length and time-based seek points: the placeholder
     # table reserved up front must be the table finalize needs
     for i in range(10 if t == "quick" else 60):
